@@ -47,7 +47,7 @@ func VerifC18Close() {
 			}
 		}()
 	}
-	activity := vstub.NdChoice("activity", 4)
+	activity := vstub.NdChoice("activity", 5)
 	var acked ipfslog.Entry
 	switch activity {
 	case 0: // idle
@@ -72,6 +72,22 @@ func VerifC18Close() {
 		vstub.FaultAtAnyStep(closer)
 		_ = a.Sync(ctx, []ipfslog.Entry{e.Copy()})
 		vstub.Cover("mid-replication")
+	case 4: // a replication whose fetch is pending on an unreachable provider
+		var l *ipfslog.IPFSLog
+		var e, parent ipfslog.Entry
+		l, parent = appendAs(env, l, a.id, w2, []byte("p"))
+		if parent == nil {
+			return
+		}
+		_, e = appendAs(env, l, a.id, w2, []byte("c"))
+		if e == nil {
+			return
+		}
+		blocks.Hang[parent.GetHash().String()] = true
+		_ = a.Sync(ctx, []ipfslog.Entry{e.Copy()})
+		vstub.WaitIdle() // the fetch of the parent is now pending
+		closer()
+		vstub.Cover("pending-fetch")
 	case 3: // in the middle of a load
 		vstub.FaultAtAnyStep(closer)
 		_ = a.Load(ctx, -1)
